@@ -106,6 +106,8 @@ def _worker(rec, us):
                 for step in rec["path"]:
                     n += 1
                     if step == "u_to_ubi":
+                        if (rec["D"] + n) % 3 == 0 and hasattr(cur, "tolist"):
+                            cur = cur.tolist()             # a rotation given as a nested list is a matrix too
                         ubi, rep_msg = L.twice(mod.u_to_ubi, cur, cell0)
                         ubi = np.asarray(ubi, dtype=float)
                         if rep_msg:
